@@ -1,7 +1,7 @@
 (* Checkers evaluated by the correspondence run: each returns the indices of
    the cases on which the model and the implementation's observed output
    differ (or on which the specification-side predicate disagrees). *)
-From V Require Import Common.Base C14.Compat C14.Spec C14.LowerGraph C14.Css.
+From V Require Import Common.Base C14.Compat C14.Spec C14.LowerGraph C14.Css C14.Sites.
 
 Fixpoint mism_from {A} (f : A -> bool) (l : list A) (i : nat) : list nat :=
   match l with
@@ -61,3 +61,16 @@ Definition css_lower_ok (c : list css_feature * list css_feature * list css_feat
   let out := css_compile U prog in
   forallb (fun g => negb (U g) || existsb (css_feature_eqb g) out) observed.
 Definition check_css_lower := mismatches css_lower_ok.
+
+(* syntax introduced by esbuild's own rewrites (minifier, generated code): (unsupported set,
+   features of the INPUT, features seen in the output).  The model: the input's features go
+   through [compile]; every introducing rewrite writes its feature only when supported
+   ([rewrite_writes]).  So every unsupported feature seen in the output must be one that
+   compile says is written. *)
+Definition intro_ok (c : list feature * list feature * list feature) : bool :=
+  let '(ul, prog, observed) := c in
+  let U := fset_of ul in
+  let out := match compile U prog with Ok o => o | Error => [] end
+             ++ flat_map (rewrite_writes U) introducing_rewrites in
+  forallb (fun g => negb (U g) || existsb (feature_eqb g) out) observed.
+Definition check_intro := mismatches intro_ok.
